@@ -22,7 +22,8 @@ KEYMAP = {"lut": ("calculation", "emodulus lut", lambda v: LUT_ID),
           "model": ("calculation", "emodulus viscosity model", str),
           "pixel": ("imaging", "pixel size", float),
           "framerate": ("imaging", "frame rate", float),
-          "ct21": ("calculation", "crosstalk fl21", float)}
+          "ct21": ("calculation", "crosstalk fl21", float),
+          "ct31": ("calculation", "crosstalk fl31", float)}
 N = 12
 
 
@@ -54,17 +55,23 @@ def apply_state(ds, cfg, temp):
         ds._usertemp.pop("temp", None)
 
 
+TWOCHAN = [False]
+
+
 def new_ds(cfg, temp):
     import dclab
-    ds = dclab.new_dataset(base_data())
+    data = base_data()
+    if TWOCHAN[0]:
+        data.pop("fl3_max")
+    ds = dclab.new_dataset(data)
     ds.config["setup"]["flow rate"] = 0.04
     ds.config["setup"]["channel width"] = 20.0
     ds.config["setup"]["chip region"] = "channel"
-    ds.config["calculation"]["crosstalk fl31"] = 0.05
     ds.config["calculation"]["crosstalk fl12"] = 0.02
-    ds.config["calculation"]["crosstalk fl32"] = 0.03
-    ds.config["calculation"]["crosstalk fl13"] = 0.01
-    ds.config["calculation"]["crosstalk fl23"] = 0.04
+    ds.config["calculation"]["crosstalk fl13"] = 0.11
+    if not TWOCHAN[0]:
+        ds.config["calculation"]["crosstalk fl32"] = 0.03
+        ds.config["calculation"]["crosstalk fl23"] = 0.04
     apply_state(ds, cfg, temp)
     return ds
 
@@ -103,7 +110,7 @@ _FRESH = {}
 
 
 def fresh(cfg, temp, f):
-    key = (tuple(sorted(cfg.items())), temp, f)
+    key = (tuple(sorted(cfg.items())), temp, f, TWOCHAN[0])
     if key not in _FRESH:
         _FRESH[key] = read(new_ds(cfg, temp), f)
     return _FRESH[key]
@@ -116,7 +123,8 @@ def descr(cfg, temp):
 
 
 def _replay(job):
-    case = job
+    case, two = job
+    TWOCHAN[0] = two
     cfg0, temp0 = case["init"]["cfg"], case["init"]["temp"]
     ds = new_ds(cfg0, temp0)
     out = []
@@ -171,7 +179,8 @@ def _replay(job):
                 w2 = fresh(state["cfg"], 0, f)[1]
                 if not same(got, w2):
                     out.append(("scenario C uses the temp feature", ctx, i))
-    return {"init": descr(cfg0, temp0), "steps": steps}, out
+    return {"init": descr(cfg0, temp0), "steps": steps,
+            "fl_channels": 2 if two else 3}, out
 
 
 def main(tier, seed, replay=None):
@@ -200,7 +209,10 @@ def main(tier, seed, replay=None):
     cases = res.tagged("H")
     if not q and len(cases) > 150000:
         cases = par.sample(cases, len(cases) // 150000 + 1, seed)
-    for case, viols in par.pmap(_replay, cases, chunk=100):
+    jobs = [(c, False) for c in cases]
+    jobs += [(c, True) for c in cases
+             if any(st.get("k", "").startswith("ct") for st in c["h"])]
+    for case, viols in par.pmap(_replay, jobs, chunk=100):
         ev.traces += 1
         ev.case(case, nontrivial=case["init"] != "")
         for sig, detail, i in viols:
